@@ -26,6 +26,7 @@ EXPLANATION = (
 )
 EXPLANATION += ' R17.12: pending-write state is assigned after the previous write was closed.'
 EXPLANATION += ' R17.11: the right-hand side of an augmented write is parenthesised in the setter call.'
+EXPLANATION += " R17.16: the setter call for a plain write is opened only past a test on the number of targets of the statement whose other side raises RefactoringError (a chained assignment is refused like a tuple assignment)."
 EXPLANATION += " R17.13: in the anchored modules and the shared text utilities no source text is cut with str.splitlines() (it breaks at form feed, \x1c-\x1e, \x85, U+2028/9; rope's and the ast's line numbers count \n only)."
 EXPLANATION += " R17.14: inside the loop over the files of a refactoring no handler swallows an error (a file is never silently left out of a multi-file change)."
 EXPLANATION += " R17.15: program text that is moved is not whitespace-normalised (the result of `\" \".join(text.split())` is only ever compared, never emitted)."
@@ -335,6 +336,7 @@ def check(ctx, res) -> None:
     _check_body(ctx, res)
     _augmented_write_grouping_rule(ctx, res)
     _pending_write_state_rule(ctx, res)
+    _chained_assignment_rule(ctx, res)
     from .common import line_model_rule as _lm
 
     _lm(ctx, res, "R17.13", ('rope.refactor.encapsulate_field', 'rope.refactor.introduce_factory', 'rope.refactor.method_object', 'rope.refactor.localtofield', 'rope.refactor.usefunction', 'rope.refactor.restructure'))
@@ -396,3 +398,88 @@ def _pending_write_state_rule(ctx, res) -> None:
                 "by a plain `acct.balance = ...` is closed with the flag of the plain write -- `set_balance(get_balance() - fee + tax)`, no parentheses, another value",
                 function=f.qualname)
     res.floor("R17.12", "assignments of pending-write state in the occurrence loop", n, 2)
+
+
+def _chained_assignment_rule(ctx, res) -> None:
+    """R17.16: `y = a.x = 7` has two targets and one value.  Encapsulate field spells a plain write as `a.set_x(<rest of the line>)`: the
+    other targets either stay in front of the call (`y = a.set_x(7)`: y is None) or are swallowed by it (`a.set_x(y = 7)`,
+    `a.set_x( b.set_x(7)`).  Like a tuple assignment, a chained one is refused: the opening of the setter call for a plain write
+    (every emission that does not stand under `assignment_type == "="` answered NO) is reached only past a test whose yes-side raises
+    RefactoringError and whose answer is computed from the NUMBER OF TARGETS of an assignment statement (`len(<node>.targets)` compared)."""
+    idx = ctx.idx
+    f = idx.need_func("rope.refactor.encapsulate_field._FindChangesForModule.get_changed_module")
+    cls = f.cls
+    # predicates of the class that count the targets of an assignment: `len(<x>.targets) > 1` (or >= 2, != 1) decides what they return
+    def counts_targets(fn_node) -> bool:
+        for c in ast.walk(fn_node):
+            if isinstance(c, ast.Compare) and len(c.ops) == 1 and isinstance(c.ops[0], (ast.Gt, ast.GtE, ast.NotEq, ast.Lt, ast.LtE, ast.Eq)):
+                for side in (c.left, c.comparators[0]):
+                    if isinstance(side, ast.Call) and call_name(side) == "len" and side.args and isinstance(side.args[0], ast.Attribute) \
+                            and side.args[0].attr == "targets":
+                        return True
+        return False
+
+    predicates = {name for name, m in cls.methods.items() if name != f.name and counts_targets(m.node)}
+    # the emission may be a private step; the predicates stay calls
+    fnode = common.inline_private_calls(idx, f, keep=tuple(predicates))
+    cfg = CFG(fnode)
+
+    def spells_setter(a) -> bool:
+        from .common import _subst_single_locals
+        a = _subst_single_locals(fnode, a)
+        return any(is_self_attr(x, "setter") for x in ast.walk(a))
+
+    # where the text of the setter call is decided: the append that spells it, or -- when the appended value is a local bound in
+    # several branches (what a helper with two returns becomes when it is read in place) -- each binding that spells it
+    emits = []
+    for nd in cfg.nodes:
+        if nd.kind != "stmt":
+            continue
+        for c in calls_in(nd.ast):
+            if call_name(c) != "append":
+                continue
+            for a in c.args:
+                if spells_setter(a):
+                    emits.append(nd)
+                    continue
+                for nm in {x.id for x in ast.walk(a) if isinstance(x, ast.Name)}:
+                    binds = [b for b in cfg.nodes if b.kind == "stmt" and isinstance(b.ast, ast.Assign)
+                             and any(isinstance(t, ast.Name) and t.id == nm for t in b.ast.targets)]
+                    if len(binds) > 1:
+                        emits += [b for b in binds if spells_setter(b.ast.value) and b not in emits]
+    if not emits:
+        raise AnalysisError("anchor=encapsulate_field setter emission (result.append(self.setter ...)) not found")
+
+    def is_plain_test(t) -> bool:
+        return isinstance(t, ast.Compare) and len(t.ops) == 1 and isinstance(t.ops[0], (ast.Eq, ast.NotEq)) \
+            and any(isinstance(x, ast.Constant) and x.value == "=" for x in (t.left, t.comparators[0]))
+
+    def is_target_count_test(t) -> bool:
+        if isinstance(t, ast.Call) and is_self_attr(t.func) and t.func.attr in predicates:
+            return True
+        return counts_targets(t)
+
+    n = 0
+    for i, e in enumerate(emits):
+        gs = cfg.guards(e.id)
+        augmented = any(is_plain_test(t) and (pol != isinstance(t.ops[0], ast.Eq)) for t, pol in gs)
+        if augmented:
+            continue  # `a.x += 1` cannot be chained
+        n += 1
+        passed = [(t, pol) for t, pol in gs if is_target_count_test(t)]
+        ok = False
+        for t, pol in passed:
+            # the other side of the test raises the refusal
+            for nd in cfg.nodes:
+                if nd.kind == "test" and nd.ast is t:
+                    for b, lab in cfg.succ[nd.id]:
+                        if lab == ("false" if pol else "true"):
+                            tgt = cfg.nodes[b]
+                            if tgt.kind == "stmt" and isinstance(tgt.ast, ast.Raise) and "RefactoringError" in ast.unparse(tgt.ast):
+                                ok = True
+        res.add("R17.16", f"get_changed_module|plain-write-emission-{i}|chained-assignment-refused", ok, f"{f.unit.rel}:{e.lineno}",
+                "the setter call for a plain write is opened only after a test on the number of targets of the statement whose other side raises RefactoringError" if ok else
+                "encapsulate field opens `set_x(` for a plain write without asking whether the statement has other targets: `y = a.x = 7` becomes "
+                "`y = a.set_x(7)` (y is None afterwards), `a.x = y = 7` becomes `a.set_x(y = 7)` (TypeError), `a.x = b.x = 7` an unbalanced parenthesis; "
+                "a tuple assignment is refused, a chained one is not", function=f.qualname)
+    res.floor("R17.16", "plain-write emissions", n, 1)
